@@ -53,6 +53,7 @@ fn order_syscall(
     };
 
     // Record the pending order
+    interp.open_orders.insert(id);
     interp.pending_orders.push(Order {
         id,
         payload: payload_rv,
@@ -81,11 +82,18 @@ fn cancel_order_syscall(
         _ => return Err(JsError::type_error("__cancelOrder__ requires order ID")),
     };
 
-    // Mark as cancelled
-    interp.cancelled_orders.push(id);
+    // Only an order that was issued and is still open can be cancelled, and only once
+    if !interp.open_orders.remove(&id) {
+        return Ok(Guarded::unguarded(JsValue::Undefined));
+    }
 
-    // Remove from pending
+    // An order the host has not been handed yet is simply withdrawn; one it has seen is
+    // reported as cancelled
+    let handed_over = !interp.pending_orders.iter().any(|o| o.id == id);
     interp.pending_orders.retain(|o| o.id != id);
+    if handed_over {
+        interp.cancelled_orders.push(id);
+    }
 
     // Remove any pending response (in case host already provided one)
     interp.order_responses.remove(&id);
@@ -106,5 +114,6 @@ fn get_order_id_syscall(
 ) -> Result<Guarded, JsError> {
     let id = interp.next_order_id;
     interp.next_order_id += 1;
+    interp.open_orders.insert(OrderId(id));
     Ok(Guarded::unguarded(JsValue::Number(id as f64)))
 }
